@@ -126,7 +126,8 @@ func checkC16(c *Checker) {
 					// a selection tree (min, max, conditional on comparisons) over val and constants: every
 					// comparison is with a constant, so the tree is decided by the position of val among those
 					// constants; one representative per ordering class is compared with the clamp
-					if d := clampTree(canon(ret), val, f, pv, mn, mx, cl.signed); d != "" {
+					// (the term as the program computes it: canonicalisation would rewrite "val < c" into arithmetic form)
+					if d := clampTree(ret, val, f, pv, mn, mx, cl.signed); d != "" {
 						ok, detail = false, d
 					}
 				}
@@ -233,6 +234,14 @@ func flatten(t *Term, m *monomialF, inverse bool) {
 		}
 	case OpConv:
 		in := t.Args[0]
+		// integer -> integer conversions that cannot change the value (int64(d) of a time.Duration)
+		for in.Op == OpConv && isIntLike(in.Typ) && isIntLike(in.Args[0].Typ) {
+			from, to := kindOf(in.Args[0].Typ), kindOf(in.Typ)
+			if !(from.OK && to.OK && from.Signed == to.Signed && to.Bits >= from.Bits) {
+				break
+			}
+			in = in.Args[0]
+		}
 		if in.Op == OpAtom && (isIntLike(in.Typ) || (kindOf(in.Typ).Float && kindOf(in.Typ).Bits == 64)) {
 			// exact: float64(int) for |n| < 2^53, or a change of a float64-based named type
 			if inverse {
